@@ -13,7 +13,7 @@
  *
  * Line protocol identical to `driver userpool`:
  *   create ult|task P | pop P I | push T P | pushu T P | setpool T P | run T f | run T y |
- *   run T m P | revive T P | free T | fail P | xlat T | stat | fin
+ *   run T m P | revive T P | free T | fail P | xlat T | popn P M | pushn P T.. | stat | fin
  */
 #include "abti.h"
 #include <stdio.h>
@@ -355,6 +355,66 @@ int main(void)
                     tstate[k] = S_HAND;
                     OUT("pop %d t%d%s", r, k, ev);
                 }
+            }
+        } else if (!strcmp(op, "popn") && sscanf(line, " %*s %ld %ld", &a, &b) == 2 && (a == 0 || a == 1 || a == 4) && b >= 1 &&
+                   b <= 8) {
+            /* ABT_pool_pop_threads: built-in pop_many, or the adapter over the legacy definition's p_pop */
+            ABT_thread buf[8];
+            size_t num = 99;
+            for (int i = 0; i < 8; i++)
+                buf[i] = ABT_THREAD_NULL;
+            pop_choice = 0;
+            char ev[1024];
+            int r = ABT_pool_pop_threads(pools[a], buf, (size_t)b, &num);
+            snprintf(ev, sizeof ev, "%s", obuf);
+            olen = 0;
+            OUT("popn %d %zu", r, num);
+            for (size_t i = 0; i < num && i < 8; i++) {
+                int k = tindex(buf[i]);
+                if (k < 0 || tstate[k] != S_POOL) {
+                    OUT(" t%d!unexpected", k);
+                } else {
+                    tstate[k] = S_HAND;
+                    OUT(" t%d", k);
+                }
+            }
+            OUT("%s", ev);
+        } else if (!strcmp(op, "pushn")) {
+            /* ABT_pool_push_threads into a built-in pool: pushn P t1 .. tn (1 <= n <= 4, all in hand, distinct) */
+            long v[6];
+            int n = 0, ok = 1;
+            char *sp = NULL;
+            char *tok = strtok_r(line, " \t\n", &sp); /* the op */
+            while ((tok = strtok_r(NULL, " \t\n", &sp)) != NULL && n < 6) {
+                char *e = NULL;
+                v[n] = strtol(tok, &e, 10);
+                if (*e || e == tok)
+                    ok = 0;
+                n++;
+            }
+            if (tok != NULL || n < 2 || n > 5 || !(v[0] == 0 || v[0] == 1))
+                ok = 0;
+            for (int i = 1; ok && i < n; i++) {
+                if (!valid_t(v[i], S_HAND))
+                    ok = 0;
+                for (int j = 1; j < i; j++)
+                    if (v[j] == v[i])
+                        ok = 0;
+            }
+            if (!ok) {
+                OUT("bad-op");
+            } else {
+                ABT_thread arr[4];
+                for (int i = 1; i < n; i++)
+                    arr[i - 1] = th[v[i]];
+                char ev[1024];
+                int r = ABT_pool_push_threads(pools[v[0]], arr, (size_t)(n - 1));
+                snprintf(ev, sizeof ev, "%s", obuf);
+                olen = 0;
+                OUT("pushn %d%s", r, ev);
+                if (r == ABT_SUCCESS)
+                    for (int i = 1; i < n; i++)
+                        tstate[v[i]] = S_POOL;
             }
         } else if ((!strcmp(op, "push") || !strcmp(op, "pushu") || !strcmp(op, "setpool")) &&
                    sscanf(line, " %*s %ld %ld", &a, &b) == 2 && valid_t(a, S_HAND) && valid_p(b)) {
